@@ -12,7 +12,6 @@ RULE = ('lap scripts: random interval multisets (incl. empty set, one huge inter
         'distinct by case text')
 UNIQUE_NOTE = 'seek_run / find_filter: seek and find must both equal filter overlap, the unique allowed answer'
 EXHAUSTIVE = {}
-CROSSCHECK = True      # thorough tier: a sample is re-evaluated inside Coq against the extracted runner
 
 
 def queries(rng, mode, cur, n):
